@@ -212,7 +212,7 @@ void Archetype::cloneEntity(Entity source, Entity dest, ArchetypeEntityIndex src
         for (const auto& clone_fn: operation_helper_.clone) {
             auto src_data = getConstComponent<FunctionSafety::kUnsafe>(component_index, src_index);
             auto dst_data = getComponent<FunctionSafety::kUnsafe>(component_index, dest_index);
-            clone_fn.clone(dst_data, dest, src_data, source, world_, map);
+            clone_fn.cloneComponent(dst_data, dest, src_data, source, world_, map);
             ++component_index;
         }
     }
